@@ -631,19 +631,28 @@ pub fn predictor_builders() -> Vec<(&'static str, Builder)> {
         let d = make_data(seed, 80, 2, false);
         let ds = Dataset::new(d.x.clone(), d.ybin.clone());
         let m = Svm::<f64, bool>::params().gaussian_kernel(5.0).pos_neg_weights(2.0, 1.0).eps(1e-5).fit(&ds).map_err(es)?;
-        Ok(sub1!("svm-bool-gaussian", m, 2, true, boolc(), f64))
+        Ok(sub1!("svm-bool-gaussian", m, 2, true, boolc(), f64, |m: &Svm<f64, bool>, x: &Array2<f64>| {
+            let ix1: Vec<Vec<f64>> = x.outer_iter().map(|r| { let l: bool = m.predict(r); vec![l as u8 as f64] }).collect();
+            vec![("=predict-single-observation-form".to_string(), ix1)]
+        }))
     }));
     v.push(("svm-pr-linear", |seed| {
         let d = make_data(seed, 80, 3, false);
         let ds = Dataset::new(d.x.clone(), d.ybin.clone());
         let m = Svm::<f64, Pr>::params().linear_kernel().pos_neg_weights(1.0, 1.0).eps(1e-5).fit(&ds).map_err(es)?;
-        Ok(sub1!("svm-pr-linear", m, 3, false, prc(), f64))
+        Ok(sub1!("svm-pr-linear", m, 3, false, prc(), f64, |m: &Svm<f64, Pr>, x: &Array2<f64>| {
+            let ix1: Vec<Vec<f64>> = x.outer_iter().map(|r| { let l: Pr = m.predict(r); vec![*l as f64] }).collect();
+            vec![("=predict-single-observation-form".to_string(), ix1)]
+        }))
     }));
     v.push(("svm-regression-poly", |seed| {
         let d = make_data(seed, 60, 2, false);
         let ds = Dataset::new(d.x.clone(), d.yreg.clone());
         let m = Svm::<f64, f64>::params().polynomial_kernel(1.0, 2.0).c_svr(1.0, Some(0.1)).eps(1e-4).fit(&ds).map_err(es)?;
-        Ok(sub1!("svm-regression-poly", m, 2, false, f64c(), f64))
+        Ok(sub1!("svm-regression-poly", m, 2, false, f64c(), f64, |m: &Svm<f64, f64>, x: &Array2<f64>| {
+            let ix1: Vec<Vec<f64>> = x.outer_iter().map(|r| { let l: f64 = m.predict(r); vec![l] }).collect();
+            vec![("=predict-single-observation-form".to_string(), ix1)]
+        }))
     }));
     v.push(("svm-regression-f32-linear", |seed| {
         let d = make_data(seed, 60, 2, true);
